@@ -64,7 +64,93 @@ class Fn:
                     site, v = vals[0]
                     if not any(isinstance(y, (ast.Yield, ast.Await, ast.NamedExpr, ast.Lambda, ast.ListComp, ast.DictComp, ast.SetComp, ast.GeneratorExp)) for y in ast.walk(v)):
                         mapping[x.id] = self.expand(site, v, depth - 1, stop)
-        return substitute(e, mapping) if mapping else e
+        out = substitute(e, mapping) if mapping else e
+        return self._inline_pure_calls(out)
+
+    # -- calls of pure one-expression helpers (siblings defined in the enclosing function, or nested here) are read as
+    #    the expression they return
+    def _pure_helpers(self) -> Dict[str, Tuple[ast.FunctionDef, ast.AST]]:
+        if getattr(self, '_ph', None) is None:
+            from fsa.summ import summarise_return
+            ph: Dict[str, Tuple[ast.FunctionDef, ast.AST]] = {}
+            scopes = [self.fi.node] + ([self.fi.parent.node] if self.fi.parent is not None else [])
+            encl_locals: Set[str] = set()
+            for sc2 in scopes:
+                encl_locals |= {x.id for x in iter_own_nodes(sc2) if isinstance(x, ast.Name) and isinstance(x.ctx, ast.Store)}
+                encl_locals |= {a.arg for a in sc2.args.args + sc2.args.kwonlyargs + sc2.args.posonlyargs}
+                if sc2.args.vararg:
+                    encl_locals.add(sc2.args.vararg.arg)
+                if sc2.args.kwarg:
+                    encl_locals.add(sc2.args.kwarg.arg)
+            for sc_ in scopes:
+                for s_ in sc_.body:
+                    if isinstance(s_, ast.FunctionDef) and s_ is not self.fi.node and s_.name not in ph:
+                        rv = summarise_return(s_)
+                        if rv is None:
+                            continue
+                        params = {a.arg for a in s_.args.args + s_.args.kwonlyargs + s_.args.posonlyargs}
+                        bound_inside = {x.id for x in ast.walk(rv) if isinstance(x, ast.Name) and isinstance(x.ctx, ast.Store)}
+                        free = {x.id for x in ast.walk(rv) if isinstance(x, ast.Name) and isinstance(x.ctx, ast.Load)} - params - bound_inside
+                        # closed over nothing but module-level names (no locals of the enclosing function): safe to read anywhere
+                        if not (free & encl_locals) and s_.name not in free and not any(isinstance(x, (ast.Yield, ast.Await, ast.NamedExpr)) for x in ast.walk(rv)):
+                            ph[s_.name] = (s_, rv)
+            self._ph = ph
+        return self._ph
+
+    def _inline_pure_calls(self, e: ast.AST, depth: int = 3) -> ast.AST:
+        ph = self._pure_helpers()
+        if not ph or depth <= 0 or not any(isinstance(x, ast.Call) and isinstance(x.func, ast.Name) and x.func.id in ph for x in ast.walk(e)):
+            return e
+        from fsa.summ import _subst
+
+        class T(ast.NodeTransformer):
+            def visit_Call(self, node):
+                self.generic_visit(node)
+                if isinstance(node.func, ast.Name) and node.func.id in ph:
+                    h, body = ph[node.func.id]
+                    names = [a.arg for a in h.args.posonlyargs + h.args.args]
+                    if len(node.args) <= len(names) and not any(isinstance(a, ast.Starred) for a in node.args):
+                        bound = dict(zip(names, node.args))
+                        okb = True
+                        for kw in node.keywords:
+                            if kw.arg is None or kw.arg in bound or kw.arg not in names + [a.arg for a in h.args.kwonlyargs]:
+                                okb = False
+                            else:
+                                bound[kw.arg] = kw.value
+                        dflt = dict(zip(names[len(names) - len(h.args.defaults):], h.args.defaults))
+                        for a, d in zip(h.args.kwonlyargs, h.args.kw_defaults):
+                            if d is not None:
+                                dflt[a.arg] = d
+                        for p_ in names + [a.arg for a in h.args.kwonlyargs]:
+                            if p_ not in bound:
+                                if p_ in dflt and isinstance(dflt[p_], ast.Constant):
+                                    bound[p_] = dflt[p_]
+                                else:
+                                    okb = False
+                        if okb:
+                            return _subst(body, bound)
+                return node
+
+        import copy as _copy
+        out = ast.fix_missing_locations(T().visit(_copy.deepcopy(e)))
+        return self._inline_pure_calls(out, depth - 1) if text(out) != text(e) else out
+
+    def xguard_atoms(self, nid: int, stop=()) -> List[Tuple[ast.AST, bool, Node]]:
+        """Guard atoms with single-definition locals read through (at the test that states them) and conjunctions /
+        disjunctions produced by inlining re-flattened."""
+        out = []
+        for (a, truth, tn) in self.guard_atoms(nid):
+            x = self.expand(tn.id, a, stop=stop)
+            if text(x) != text(a):
+                for (a2, t2) in nnf_atoms(x, truth):
+                    out.append((a2, t2, tn))
+            else:
+                out.append((a, truth, tn))
+        return out
+
+    def xholds(self, nid: int, src: str, truth: bool = True, stop=()) -> bool:
+        from fsa.match import has_fact
+        return has_fact(self.xguard_atoms(nid, stop), src, truth)
 
     def holds(self, nid: int, src: str, truth: bool = True) -> bool:
         """Is the fact `src` known to have value `truth` on every path to node `nid`?"""
@@ -144,6 +230,110 @@ class Fn:
                         continue  # identity arm of `x = d if x is None else x`
                     out.append(VDef(n, val, base + list(extra), op))
         return out
+
+    # -- a dict filled by one store in a loop, read as the comprehension it is equivalent to
+    def loop_store_comp(self, n: Node) -> Optional[ast.DictComp]:
+        """`for T in I: [if C:] D[K] = V`  ->  `{K: V for T in I if C}` (locals bound inside the loop read through)."""
+        a = n.ast
+        if not (n.kind == 'stmt' and isinstance(a, ast.Assign) and len(a.targets) == 1 and isinstance(a.targets[0], ast.Subscript) and n.loops):
+            return None
+        lp = self.cfg.nodes[n.loops[-1]]
+        if lp.kind != 'for':
+            return None
+        tnames = tuple(x.id for x in ast.walk(lp.ast.target) if isinstance(x, ast.Name))
+        key = self.expand(n.id, a.targets[0].slice, stop=tnames)
+        val = self.expand(n.id, a.value, stop=tnames)
+        conds: List[ast.AST] = []
+        for (at, truth, tn) in self.guard_atoms(n.id):
+            if lp.id in tn.loops:
+                at = self.expand(tn.id, at, stop=tnames)
+                conds.append(at if truth else ast.UnaryOp(op=ast.Not(), operand=at))
+        dc = ast.DictComp(key=key, value=val, generators=[ast.comprehension(target=lp.ast.target, iter=lp.ast.iter, ifs=conds, is_async=0)])
+        ast.copy_location(dc, a)
+        return ast.fix_missing_locations(dc)
+
+    def as_listcomp(self, nid: int, e: ast.AST) -> Optional[ast.AST]:
+        """`e` as a list comprehension / generator: itself, or a local initialised `[]` and filled by exactly one
+        `.append(X)` in one for loop (`for T in I: [if C:] L.append(X)` -> `[X for T in I if C]`)."""
+        if isinstance(e, (ast.ListComp, ast.GeneratorExp)):
+            return e
+        if isinstance(e, ast.Call) and dotted(e.func) in ('list', 'tuple') and len(e.args) == 1 and isinstance(e.args[0], (ast.ListComp, ast.GeneratorExp)):
+            return e.args[0]
+        if not isinstance(e, ast.Name):
+            return None
+        vals = self.lf.values_reaching(nid, e.id)
+        if len(vals) != 1 or vals[0][0] == PARAM or vals[0][1] is None:
+            return None
+        site, v = vals[0]
+        if isinstance(v, (ast.ListComp, ast.GeneratorExp)):
+            return v
+        empty = (isinstance(v, ast.List) and not v.elts) or (isinstance(v, ast.Call) and dotted(v.func) == 'list' and not v.args)
+        if not empty:
+            return None
+        from fsa.effects import MUTATORS
+        muts = []
+        for n in self.cfg.nodes:
+            if n.ast is None:
+                continue
+            for root in node_expr_roots(n):
+                if isinstance(root, (ast.FunctionDef, ast.ClassDef)):
+                    continue
+                for x in ast.walk(root):
+                    if isinstance(x, ast.Call) and isinstance(x.func, ast.Attribute) and isinstance(x.func.value, ast.Name) and x.func.value.id == e.id \
+                            and x.func.attr in MUTATORS:
+                        muts.append((n, x))
+                    if isinstance(x, (ast.Subscript,)) and isinstance(x.ctx, (ast.Store, ast.Del)) and isinstance(x.value, ast.Name) and x.value.id == e.id:
+                        muts.append((n, x))
+                if isinstance(root, ast.AugAssign) and isinstance(root.target, ast.Name) and root.target.id == e.id:
+                    muts.append((n, root))
+        if len(muts) != 1:
+            return None
+        n, c = muts[0]
+        if not (isinstance(c, ast.Call) and c.func.attr == 'append' and len(c.args) == 1 and n.kind == 'stmt' and isinstance(n.ast, ast.Expr) and n.ast.value is c):
+            return None
+        if not n.loops or len(n.loops) != 1 + len(self.cfg.nodes[site].loops):
+            return None
+        lp = self.cfg.nodes[n.loops[-1]]
+        if lp.kind != 'for' or site not in self.dom[lp.id] or lp.id not in self.dom[nid] or lp.id in self.cfg.nodes[nid].loops:
+            return None
+        tnames = tuple(x.id for x in ast.walk(lp.ast.target) if isinstance(x, ast.Name))
+        elt = self.expand(n.id, c.args[0], stop=tnames)
+        conds: List[ast.AST] = []
+        for (at, truth, tn) in self.guard_atoms(n.id):
+            if lp.id in tn.loops:
+                at = self.expand(tn.id, at, stop=tnames)
+                conds.append(at if truth else ast.UnaryOp(op=ast.Not(), operand=at))
+        lc = ast.ListComp(elt=elt, generators=[ast.comprehension(target=lp.ast.target, iter=lp.ast.iter, ifs=conds, is_async=0)])
+        ast.copy_location(lc, n.ast)
+        return ast.fix_missing_locations(lc)
+
+    def as_dictcomp(self, nid: int, e: ast.AST) -> Optional[ast.DictComp]:
+        """`e` as a dict comprehension: itself, or a local initialised empty and filled by exactly one store in one loop."""
+        from fsa.effects import MUTATORS
+        if isinstance(e, ast.DictComp):
+            return e
+        if not isinstance(e, ast.Name):
+            return None
+        vals = self.lf.values_reaching(nid, e.id)
+        if len(vals) != 1 or vals[0][0] == PARAM or vals[0][1] is None:
+            return None
+        site, v = vals[0]
+        empty = (isinstance(v, ast.Dict) and not v.keys) or (isinstance(v, ast.Call) and dotted(v.func) in ('dict', 'collections.OrderedDict', 'OrderedDict') and not v.args and not v.keywords)
+        if not empty:
+            return None
+        stores = [n for n in self.cfg.nodes if n.kind == 'stmt' and isinstance(n.ast, (ast.Assign, ast.AugAssign))
+                  and any(isinstance(t, ast.Subscript) and isinstance(t.value, ast.Name) and t.value.id == e.id
+                          for t in (n.ast.targets if isinstance(n.ast, ast.Assign) else [n.ast.target]))]
+        other = [n for n in self.nodes_with(lambda x: isinstance(x, ast.Call) and isinstance(x.func, ast.Attribute) and isinstance(x.func.value, ast.Name)
+                                              and x.func.value.id == e.id and x.func.attr in MUTATORS)]
+        if len(stores) != 1 or other or not isinstance(stores[0].ast, ast.Assign):
+            return None
+        st = stores[0]
+        if not st.loops or site not in self.dom[st.loops[0]] or st.loops[0] not in self.dom[nid] or nid in [x.id for x in self.cfg.nodes if st.loops[0] in x.loops]:
+            return None
+        if len(st.loops) != 1 + len(self.cfg.nodes[site].loops):
+            return None
+        return self.loop_store_comp(st)
 
     def path_to(self, n: Node) -> List[str]:
         p = self.cfg.some_path(self.cfg.entry, n.id)
